@@ -195,6 +195,17 @@ fn write_text(c: &Case, outdir: &Path, ext: &str) -> std::path::PathBuf {
 
 fn fileview(c: &Case, outdir: &Path, out: &mut String) {
     let p = write_text(c, outdir, "txt");
+    // `HOLE <pos> <len>`: the file gets `len` zero bytes inserted at `pos` — as a hole (a sparse file: views of more than 4 GiB
+    // without 4 GiB of data)
+    if let Some(h) = c.records("HOLE").next() {
+        use std::io::{Seek as _, Write as _};
+        let (pos, len): (u64, u64) = (h[1].parse().unwrap(), h[2].parse().unwrap());
+        let text = std::fs::read(&p).unwrap();
+        let mut f = std::fs::File::create(&p).unwrap();
+        f.write_all(&text[..pos as usize]).unwrap();
+        f.seek(SeekFrom::Start(pos + len)).unwrap();
+        f.write_all(&text[pos as usize..]).unwrap();
+    }
     let lo: u64 = c.args[0].parse().unwrap();
     let hi: u64 = c.args[1].parse().unwrap();
     let mut v = FileView::new(std::fs::File::open(&p).unwrap(), lo, hi).unwrap();
